@@ -531,6 +531,26 @@ EXAMPLES = {
 }
 
 
+def precision_structs():
+    """Valid structures of every type whose coordinates need all 17 significant digits (and the largest / smallest magnitudes):
+    the JSON dump must bring back exactly the same doubles."""
+    maps = [
+        lambda x: x + 0.30000000000000004,          # 0.1 + 0.2
+        lambda x: x / 3.0 + 1.0000000000000002,     # thirds just above 1 + ulp
+        lambda x: x * 1234567.8901234567 + 5e-324,  # large, 17 digits; 0 -> the smallest subnormal
+        lambda x: (x + 1.0) * 1e-300,               # tiny
+    ]
+
+    def mp(c, f):
+        return [mp(y, f) for y in c] if isinstance(c, list) else f(c)
+    for t in TYPES:
+        for f in maps:
+            yield mp(EXAMPLES[t], f)
+    yield 4999999.999999999
+    yield [0.1, 4999999.999999999]
+    yield [0.1, 4999999.999999999, 0.7, 0.30000000000000004]
+
+
 def tag_pool(tier):
     n = CFG[tier]["tag_pool_flat_len"]
     pool = list(ALPHA_F)
@@ -654,6 +674,7 @@ def blocks(tier):
     out = []
     for space in ("flat", "wrap", "tags", "nested"):
         out += [{"space": space, "tier": tier, "shard": [i, nb[space]]} for i in range(nb[space])]
+    out.append({"space": "precision", "tier": tier, "shard": [0, 1]})
     return out
 
 
@@ -666,6 +687,9 @@ def run_block(block, rec):
             eval_struct(c, None, rec)
     elif sp == "wrap":
         for c in itertools.islice(wrap_structs(tier), i, None, n):
+            eval_struct(c, None, rec)
+    elif sp == "precision":
+        for c in precision_structs():
             eval_struct(c, None, rec)
     elif sp == "tags":
         for case in itertools.islice(tag_cases(tier), i, None, n):
